@@ -20,9 +20,9 @@ type poolObj struct {
 }
 
 const (
-	big62  = "4611686018427387904"     // 2^62, a fixnum
-	big70  = "1180591620717411303424"  // 2^70, a bignum
-	minFix = "-9223372036854775808"    // most negative fixnum
+	big62  = "4611686018427387904"    // 2^62, a fixnum
+	big70  = "1180591620717411303424" // 2^70, a bignum
+	minFix = "-9223372036854775808"   // most negative fixnum
 )
 
 var pool = []poolObj{
